@@ -53,6 +53,11 @@ type Vocab struct {
 	// A new name whose signature equals that of a name that has disappeared from the same scope is taken for a
 	// rename, not for a new helper, and is left alone.
 	Sigs map[string]string `json:"sigs"`
+	// Ranges: "pkg|Func" -> the operands of its range loops (as source text); Vars: package -> package-level variables.
+	// A range loop over a slice literal (directly, through a local assigned once, or through an unexported package
+	// variable nobody assigns) whose operand is not in this list is a table-driven rewrite and is unrolled.
+	Ranges map[string][]string `json:"ranges"`
+	Vars   map[string][]string `json:"vars"`
 }
 
 func sigText(ft *ast.FuncType) string {
@@ -183,7 +188,7 @@ func closureSigs(body ast.Node) map[string]string {
 
 // ScanNames parses the non-test Go files below dir (content from overlay when present) and returns their names.
 func ScanNames(dir string, overlay map[string][]byte) (*Vocab, error) {
-	v := &Vocab{Funcs: map[string][]string{}, Closures: map[string]map[string][]string{}, Sigs: map[string]string{}}
+	v := &Vocab{Funcs: map[string][]string{}, Closures: map[string]map[string][]string{}, Sigs: map[string]string{}, Ranges: map[string][]string{}, Vars: map[string][]string{}}
 	fset := token.NewFileSet()
 	err := filepath.Walk(dir, func(path string, fi os.FileInfo, err error) error {
 		if err != nil {
@@ -210,11 +215,26 @@ func ScanNames(dir string, overlay map[string][]byte) (*Vocab, error) {
 		rel, _ := filepath.Rel(dir, filepath.Dir(path))
 		rel = filepath.ToSlash(rel)
 		for _, d := range f.Decls {
+			if gd, isGD := d.(*ast.GenDecl); isGD && gd.Tok == token.VAR {
+				for _, sp := range gd.Specs {
+					for _, id := range sp.(*ast.ValueSpec).Names {
+						v.Vars[rel] = append(v.Vars[rel], id.Name)
+					}
+				}
+			}
 			fd, ok := d.(*ast.FuncDecl)
 			if !ok {
 				continue
 			}
 			name := declName(fd)
+			if fd.Body != nil {
+				ast.Inspect(fd.Body, func(n ast.Node) bool {
+					if rs, isR := n.(*ast.RangeStmt); isR {
+						v.Ranges[rel+"|"+name] = append(v.Ranges[rel+"|"+name], types.ExprString(rs.X))
+					}
+					return true
+				})
+			}
 			v.Funcs[rel] = append(v.Funcs[rel], name)
 			v.Sigs[rel+"|"+name] = sigText(fd.Type)
 			if fd.Body != nil {
@@ -339,10 +359,35 @@ func Normalise(cfg Config, voc *Vocab) (*NormResult, error) {
 		return nil, err
 	}
 	nf, nc := newNames(cur, voc)
-	if len(nf) == 0 && len(nc) == 0 {
+	newRangePkgs := map[string]bool{}
+	if len(voc.Ranges) > 0 {
+		for key, xs := range cur.Ranges {
+			known, has := voc.Ranges[key]
+			pk := strings.SplitN(key, "|", 2)[0]
+			if _, pkKnown := voc.Funcs[pk]; !pkKnown {
+				continue
+			}
+			if !has {
+				known = nil
+			}
+			ks := map[string]bool{}
+			for _, x := range known {
+				ks[x] = true
+			}
+			for _, x := range xs {
+				if !ks[x] {
+					newRangePkgs[pk] = true
+				}
+			}
+		}
+	}
+	if len(nf) == 0 && len(nc) == 0 && len(newRangePkgs) == 0 {
 		return nil, nil
 	}
 	pkgSet := map[string]bool{}
+	for pk := range newRangePkgs {
+		pkgSet[pk] = true
+	}
 	for pk := range nf {
 		pkgSet[pk] = true
 	}
@@ -371,7 +416,7 @@ func Normalise(cfg Config, voc *Vocab) (*NormResult, error) {
 			if rel == "" {
 				rel = "."
 			}
-			in := &inliner{pk: pk, newFuncs: nf[rel], newClosures: nc[rel], counter: &counter, res: res}
+			in := &inliner{pk: pk, newFuncs: nf[rel], newClosures: nc[rel], counter: &counter, res: res, voc: voc, rel: rel}
 			in.noteDropped()
 		}
 	}
@@ -397,7 +442,7 @@ func Normalise(cfg Config, voc *Vocab) (*NormResult, error) {
 				if rel == "" {
 					rel = "."
 				}
-				in := &inliner{pk: pk, newFuncs: nf[rel], newClosures: nc[rel], counter: &counter, res: res}
+				in := &inliner{pk: pk, newFuncs: nf[rel], newClosures: nc[rel], counter: &counter, res: res, voc: voc, rel: rel}
 				for i, f := range pk.Syntax {
 					if i >= len(pk.CompiledGoFiles) {
 						continue
@@ -405,6 +450,9 @@ func Normalise(cfg Config, voc *Vocab) (*NormResult, error) {
 					fname := pk.CompiledGoFiles[i]
 					src := in.srcOf(fname)
 					edits := in.fileEdits(f, fname, src)
+					if len(edits) == 0 {
+						edits = in.unrollEdits(f, fname, src)
+					}
 					if len(edits) == 0 {
 						continue
 					}
@@ -490,6 +538,8 @@ type inliner struct {
 	newClosures map[string]map[string]bool
 	counter     *int
 	res         *NormResult
+	voc         *Vocab
+	rel         string
 }
 
 // callee is what gets inlined: a declared function / method or a closure literal.
@@ -1028,6 +1078,7 @@ func (in *inliner) fileEdits(f *ast.File, fname string, src []byte) []textEdit {
 	if len(in.newFuncs) == 0 && len(in.newClosures) == 0 {
 		return nil
 	}
+	_ = fname
 	parents := map[ast.Node]ast.Node{}
 	var stack []ast.Node
 	ast.Inspect(f, func(n ast.Node) bool {
@@ -1549,4 +1600,324 @@ func (in *inliner) noteDropped() {
 			}
 		}
 	}
+}
+
+// ---- unrolling of table-driven loops ------------------------------------------------------------------------------
+
+// literalLen: the number of elements of the slice literal that x denotes at the loop — x is the literal itself, a
+// local assigned exactly once from one and never address-taken, or an unexported package variable initialised by one
+// and never assigned anywhere in the package. direct reports the first case.
+func (in *inliner) literalLen(x ast.Expr, fd *ast.FuncDecl) (n int, direct bool, ok bool) {
+	info := in.pk.TypesInfo
+	count := func(cl *ast.CompositeLit) (int, bool) {
+		if _, isSlice := info.TypeOf(cl).Underlying().(*types.Slice); !isSlice {
+			return 0, false
+		}
+		for _, el := range cl.Elts {
+			if _, isKV := el.(*ast.KeyValueExpr); isKV {
+				return 0, false
+			}
+		}
+		return len(cl.Elts), true
+	}
+	if cl, isCL := x.(*ast.CompositeLit); isCL {
+		n, ok := count(cl)
+		return n, true, ok
+	}
+	id, isID := x.(*ast.Ident)
+	if !isID {
+		return 0, false, false
+	}
+	v, isVar := info.Uses[id].(*types.Var)
+	if !isVar || v.IsField() || v.Pkg() != in.pk.Types {
+		return 0, false, false
+	}
+	var init *ast.CompositeLit
+	nAssign := 0
+	bad := false
+	scan := func(root ast.Node) {
+		ast.Inspect(root, func(nd ast.Node) bool {
+			switch y := nd.(type) {
+			case *ast.AssignStmt:
+				for i, lh := range y.Lhs {
+					lid, isL := lh.(*ast.Ident)
+					if !isL || (info.Defs[lid] != v && info.Uses[lid] != v) {
+						continue
+					}
+					nAssign++
+					if len(y.Lhs) == len(y.Rhs) {
+						if cl, isCL := y.Rhs[i].(*ast.CompositeLit); isCL {
+							init = cl
+							continue
+						}
+					}
+					bad = true
+				}
+			case *ast.ValueSpec:
+				for i, nm := range y.Names {
+					if info.Defs[nm] != v {
+						continue
+					}
+					nAssign++
+					if i < len(y.Values) {
+						if cl, isCL := y.Values[i].(*ast.CompositeLit); isCL {
+							init = cl
+							continue
+						}
+					}
+					bad = true
+				}
+			case *ast.UnaryExpr:
+				if y.Op == token.AND {
+					if uid, isU := y.X.(*ast.Ident); isU && info.Uses[uid] == v {
+						bad = true
+					}
+				}
+			case *ast.IncDecStmt:
+				if uid, isU := y.X.(*ast.Ident); isU && info.Uses[uid] == v {
+					bad = true
+				}
+			}
+			return true
+		})
+	}
+	if v.Parent() == in.pk.Types.Scope() {
+		if v.Exported() {
+			return 0, false, false
+		}
+		for _, f := range in.pk.Syntax {
+			scan(f)
+		}
+	} else {
+		if fd == nil {
+			return 0, false, false
+		}
+		scan(fd)
+	}
+	if bad || init == nil || nAssign != 1 {
+		return 0, false, false
+	}
+	n, ok = count(init)
+	return n, false, ok
+}
+
+// unrollEdits replaces range loops over small slice literals whose operand the reference tree does not know by one copy
+// of the body per element.
+func (in *inliner) unrollEdits(f *ast.File, fname string, src []byte) []textEdit {
+	if in.voc == nil || len(in.voc.Ranges) == 0 {
+		return nil
+	}
+	info := in.pk.TypesInfo
+	var edits []textEdit
+	var done [][2]token.Pos
+	for _, d := range f.Decls {
+		fd, ok := d.(*ast.FuncDecl)
+		if !ok || fd.Body == nil {
+			continue
+		}
+		fname2 := declName(fd)
+		knownFn := false
+		for _, n := range in.voc.Funcs[in.rel] {
+			if n == fname2 {
+				knownFn = true
+			}
+		}
+		if !knownFn {
+			continue // a helper outside the vocabulary: its loops are looked at where it is inlined
+		}
+		known := map[string]bool{}
+		for _, x := range in.voc.Ranges[in.rel+"|"+fname2] {
+			known[x] = true
+		}
+		parents := map[ast.Node]ast.Node{}
+		var stack []ast.Node
+		ast.Inspect(fd, func(n ast.Node) bool {
+			if n == nil {
+				stack = stack[:len(stack)-1]
+				return false
+			}
+			if len(stack) > 0 {
+				parents[n] = stack[len(stack)-1]
+			}
+			stack = append(stack, n)
+			return true
+		})
+		ast.Inspect(fd.Body, func(nd ast.Node) bool {
+			rs, isR := nd.(*ast.RangeStmt)
+			if !isR || known[types.ExprString(rs.X)] {
+				return true
+			}
+			for _, t := range done {
+				if t[0] <= rs.Pos() && rs.End() <= t[1] {
+					return true
+				}
+			}
+			where := in.pk.Fset.PositionFor(rs.Pos(), true)
+			refuse := func(why string) {
+				in.res.Refused = append(in.res.Refused, fmt.Sprintf("unroll in %s at %s:%d: %s", fname2, filepath.Base(where.Filename), where.Line, why))
+			}
+			n, direct, ok := in.literalLen(rs.X, fd)
+			if !ok {
+				return true // not a loop over a literal: nothing to say
+			}
+			if n == 0 || n > 8 {
+				refuse(fmt.Sprintf("%d elements", n))
+				return true
+			}
+			if rs.Tok != token.DEFINE && (rs.Key != nil || rs.Value != nil) {
+				refuse("loop variables are assigned, not declared")
+				return true
+			}
+			var keyName, valName string
+			if id, isID := rs.Key.(*ast.Ident); isID {
+				keyName = id.Name
+			} else if rs.Key != nil {
+				refuse("key is not an identifier")
+				return true
+			}
+			if id, isID := rs.Value.(*ast.Ident); isID {
+				valName = id.Name
+			} else if rs.Value != nil {
+				refuse("value is not an identifier")
+				return true
+			}
+			// the statement to replace: the loop, or its label
+			var whole ast.Stmt = rs
+			var ownLabel types.Object
+			if ls, isL := parents[rs].(*ast.LabeledStmt); isL {
+				whole = ls
+				ownLabel = info.Defs[ls.Label]
+			}
+			switch parents[whole].(type) {
+			case *ast.BlockStmt, *ast.CaseClause, *ast.CommClause:
+			default:
+				refuse("not in a statement list")
+				return true
+			}
+			// body: what break / continue of this loop become, and what makes a copy impossible
+			*in.counter++
+			pfx := fmt.Sprintf("inl%d_", *in.counter)
+			bad := ""
+			type brk struct {
+				off, end int
+				cont     bool
+			}
+			var brks []brk
+			bodyStart, bodyEnd := in.offset(rs.Body.Lbrace)+1, in.offset(rs.Body.Rbrace)
+			var walk func(n ast.Node, inLoop, inBreakable bool)
+			walk = func(n ast.Node, inLoop, inBreakable bool) {
+				ast.Inspect(n, func(x ast.Node) bool {
+					if x == nil || bad != "" {
+						return false
+					}
+					if x == n {
+						return true
+					}
+					switch y := x.(type) {
+					case *ast.FuncLit:
+						bad = "function literal in the body"
+						return false
+					case *ast.LabeledStmt:
+						bad = "label in the body"
+						return false
+					case *ast.DeferStmt:
+						bad = "defer in the body"
+						return false
+					case *ast.UnaryExpr:
+						if y.Op == token.AND {
+							if id, isID := y.X.(*ast.Ident); isID && (id.Name == keyName || id.Name == valName) && id.Name != "" {
+								bad = "address of a loop variable"
+							}
+						}
+					case *ast.ForStmt, *ast.RangeStmt:
+						walk(y, true, true)
+						return false
+					case *ast.SwitchStmt, *ast.TypeSwitchStmt, *ast.SelectStmt:
+						walk(y, inLoop, true)
+						return false
+					case *ast.BranchStmt:
+						switch y.Tok {
+						case token.GOTO:
+							bad = "goto in the body"
+						case token.BREAK, token.CONTINUE:
+							mine := false
+							if y.Label != nil {
+								if ownLabel != nil && info.Uses[y.Label] == ownLabel {
+									mine = true
+								}
+							} else if y.Tok == token.BREAK && !inBreakable {
+								mine = true
+							} else if y.Tok == token.CONTINUE && !inLoop {
+								mine = true
+							}
+							if mine {
+								brks = append(brks, brk{in.offset(y.Pos()) - bodyStart, in.offset(y.End()) - bodyStart, y.Tok == token.CONTINUE})
+							}
+						}
+					}
+					return true
+				})
+			}
+			walk(rs.Body, false, false)
+			if bad != "" {
+				refuse(bad)
+				return true
+			}
+			if bodyStart > bodyEnd || bodyEnd > len(src) {
+				return true
+			}
+			usesBreak := false
+			for _, b := range brks {
+				if !b.cont {
+					usesBreak = true
+				}
+			}
+			var sb strings.Builder
+			sb.WriteString("{\n")
+			xs := in.text(rs.X)
+			if direct {
+				fmt.Fprintf(&sb, "%slit := %s\n", pfx, xs)
+				xs = pfx + "lit"
+			}
+			if usesBreak {
+				fmt.Fprintf(&sb, "%sU: switch { default:\n", pfx)
+			}
+			for k := 0; k < n; k++ {
+				usesCont := false
+				var be []textEdit
+				for _, b := range brks {
+					if b.cont {
+						usesCont = true
+						be = append(be, textEdit{off: b.off, end: b.end, text: fmt.Sprintf("break %sC%d", pfx, k)})
+					} else {
+						be = append(be, textEdit{off: b.off, end: b.end, text: "break " + pfx + "U"})
+					}
+				}
+				body := string(applyEdits([]byte(string(src[bodyStart:bodyEnd])), be))
+				if usesCont {
+					fmt.Fprintf(&sb, "%sC%d: switch { default:\n", pfx, k)
+				} else {
+					sb.WriteString("{\n")
+				}
+				if keyName != "" && keyName != "_" {
+					fmt.Fprintf(&sb, "%s := %d\n_ = %s\n", keyName, k, keyName)
+				}
+				if valName != "" && valName != "_" {
+					fmt.Fprintf(&sb, "%s := %s[%d]\n_ = %s\n", valName, xs, k, valName)
+				}
+				sb.WriteString(body)
+				sb.WriteString("\n}\n")
+			}
+			if usesBreak {
+				sb.WriteString("}\n")
+			}
+			sb.WriteString("}")
+			edits = append(edits, textEdit{off: in.offset(whole.Pos()), end: in.offset(whole.End()), text: sb.String() + in.lineDirective(whole.End())})
+			done = append(done, [2]token.Pos{whole.Pos(), whole.End()})
+			in.res.Inlined = append(in.res.Inlined, fmt.Sprintf("%s: loop over %s in %s unrolled %d times (%s:%d)", in.rel, types.ExprString(rs.X), fname2, n, filepath.Base(where.Filename), where.Line))
+			return false
+		})
+	}
+	_ = fname
+	return edits
 }
